@@ -38,7 +38,9 @@ func genUsername(r *Run) string {
 	case 0:
 		return []string{"", "a", "ab", "abcdefghijklmnop", "abcdefghijklmnopq", "A_", "__", "0123456789012345"}[r.W.Pick(8)]
 	case 1:
-		return []string{"Bob Smith", "Bob-Smith", "Ünicode", "名前", "bob\x00", "bob\n", "tab\tname", "émile", "a.b", "a:b", "Bob!", "ｆｕｌｌ"}[r.W.Pick(12)]
+		return []string{"Bob Smith", "Bob-Smith", "Ünicode", "名前", "bob\x00", "bob\n", "tab\tname", "émile", "a.b", "a:b", "Bob!", "ｆｕｌｌ",
+			// code points that case-fold to ASCII letters
+			"\u212Aevin", "\u017Fteve", "Ste\u017F", "\u0130stan", "ma\u212A"}[r.W.Pick(17)]
 	case 2:
 		n := 17 + r.W.Pick(4)
 		b := make([]byte, n)
